@@ -164,6 +164,43 @@ def run_case(c):
                        "ghostNodes": ilist(gn), "global": ilist(ge)})
         outs.append(po)
     res["parts"] = outs
+    # the partition data must survive Mesh.Save / Load_Mesh, copy.deepcopy and pickle (tagged groups included)
+    rt_problems = []
+    if Nproc > 1:
+        import copy as _copy
+        import pickle as _pickle
+        import os as _os
+        from EasyFEA.FEM._mesh import Load_Mesh
+        folder = _os.path.join(_os.getcwd(), "tmp_meshes_C20")
+        ntags = 0
+        for r, p in enumerate(parts[:2]):       # two parts per case keep the quick tier fast
+            try:
+                with contextlib.redirect_stdout(io.StringIO()):
+                    path = p.Save(folder, "case%d_part%d" % (c["id"], r))
+                    clones = {"Save/Load_Mesh": Load_Mesh(path), "pickle": _pickle.loads(_pickle.dumps(p))}
+                    if r == 0:
+                        clones["deepcopy"] = _copy.deepcopy(p)
+            except Exception as ex:
+                rt_problems.append("part %d: round trip raises %s: %s" % (r, type(ex).__name__, ex))
+                continue
+            for how, q in clones.items():
+                for et, gp in p.dict_groupElem.items():
+                    gq = q.dict_groupElem.get(et)
+                    ntags += len(gp.nodeTags)
+                    if gq is None:
+                        rt_problems.append("part %d %s: group %s lost" % (r, how, et.name))
+                        continue
+                    a, b = gp._Get_partitioned_data(), gq._Get_partitioned_data()
+                    names_ = ("rank", "elements", "ghostElements", "nodes", "ghostNodes")
+                    for k in range(5):
+                        if not np.array_equal(np.asarray(a[k]), np.asarray(b[k])):
+                            rt_problems.append("part %d %s: %s of group %s changed (%d -> %d entries)" % (r, how, names_[k], et.name, np.size(a[k]), np.size(b[k])))
+                    if not np.array_equal(gp.connect, gq.connect):
+                        rt_problems.append("part %d %s: connect of group %s changed" % (r, how, et.name))
+                if not np.array_equal(np.asarray(p._Get_mpi_owned_nodes()), np.asarray(q._Get_mpi_owned_nodes())):
+                    rt_problems.append("part %d %s: _Get_mpi_owned_nodes changed" % (r, how))
+        res["roundtrip_tags_seen"] = ntags
+    res["roundtrip_problems"] = rt_problems[:10]
     res["rows_ok"] = rows_ok
     res["not_canonical"] = not_canonical[:10]
     res["coords_ok"] = coords_ok and all(p.Nn == ref.Nn for p in parts)
@@ -241,9 +278,11 @@ def run_case(c):
             worst = 0.0
             worst_at = None
             unknowns = ["x", "y", "z"][:dim]
+            part_sims = []
             for r, p in enumerate(parts):
                 with contextlib.redirect_stdout(io.StringIO()):
                     Kr, sr = elastic_K(p, dim)
+                part_sims.append(sr)
                 dofs = sr.Bc_dofs_nodes(np.asarray(owned[r], dtype=int), unknowns) if len(owned[r]) else np.zeros(0, dtype=int)
                 if len(dofs):
                     d = abs(Kr[dofs] - K[dofs])
@@ -263,7 +302,26 @@ def run_case(c):
                         Rs_impl[dofs] += Rr
                     else:
                         Rs_impl[:] = np.nan
+            # reaction on the clamped side, as a partitioned script computes it: every part passes the support dofs IT
+            # OWNS (an empty array on the parts owning none) and the contributions are summed
+            sup_nodes = set(int(n) for n in n0) if solved else set(int(n) for n in np.asarray(ref.nodes)[: max(1, ref.Nn // 7)])
+            sup_sum, empty_lens, n_empty = 0.0, [], 0
+            for r, p in enumerate(parts):
+                mine = np.asarray(sorted(sup_nodes.intersection(owned[r])), dtype=int)
+                sr = part_sims[r]
+                sr._Set_solutions(sr.problemType, u)
+                dsel = sr.Bc_dofs_nodes(mine, unknowns) if mine.size else np.zeros(0, dtype=int)
+                Rr = np.asarray(sr.Calc_Reaction(np.asarray(dsel, dtype=int)), dtype=float)
+                if mine.size == 0:
+                    n_empty += 1
+                    empty_lens.append(int(Rr.size))
+                sup_sum += float(Rr.sum()) if Rr.size == np.size(dsel) else float("nan")
+            sup_dofs = simu.Bc_dofs_nodes(np.asarray(sorted(sup_nodes), dtype=int), unknowns)
+            sup_glob = float((K @ u)[sup_dofs].sum())
+            sup_scale = float(abs((K @ u)[sup_dofs]).sum()) + 1e-300
             res["K"] = {"scale": scale, "max_row_diff": worst, "worst_at": worst_at,
+                        "support": {"sum_parts": sup_sum, "global": sup_glob, "scale": sup_scale, "parts_with_empty_selection": n_empty,
+                                    "returned_sizes_for_empty_selection": empty_lens},
                         "E_global": Eglob, "E_sum_parts": Esum,
                         "R_diff": float(abs(Rsum - Rglob).max()), "R_scale": float(abs(Rglob).max()),
                         "impl": {"solved_field": solved, "E_global": Eg_impl, "E_sum_parts": Es_impl,
